@@ -35,7 +35,7 @@ CODES = 'ybnqiuxtdsgo'          # every basic type of the DBus grammar that a va
 
 def _getProperty(self, interfaceName, propertyName): pass
 def _iterIFaceCaches(self): pass
-def emitSignal(self, signalName, *args): pass
+def emitSignal(self, signalName, *args, interface=''): pass
 
 
 def typed(sig, v):
@@ -96,7 +96,7 @@ def build_world():
     w.add_class(ClassSpec(IP, None, {'access': STR, 'sig': STR, 'emits': STR, 'name': STR}))
     w.add_class(ClassSpec(DP, objects.DBusProperty, {'pname': STR, 'interface': Opt(STR), 'key': Opt(KEY2), 'attr_name': Opt(STR), 'iprop': Opt(Ref(IP))}))
     w.add_class(ClassSpec(O, objects.DBusObject, {'_dbusProperties': DictT(STR, OPAQUE), '_dbusProperties?set': BOOL,
-                                                  'g_emitted': INT, 'g_sig_name': STR, 'g_sig_iface': STR, 'g_sig_key': STR, 'g_sig_val': OPAQUE, 'g_sig_inval': INT},
+                                                  'g_emitted': INT, 'g_sig_name': STR, 'g_sig_iface': STR, 'g_sig_key': STR, 'g_sig_val': OPAQUE, 'g_sig_inval': INT, 'g_sig_on': STR},
                           methods={'_getProperty': _getProperty, '_iterIFaceCaches': _iterIFaceCaches, 'emitSignal': emitSignal}))
 
     def resolved(pv):
@@ -117,10 +117,12 @@ def build_world():
     contract(w, 'iface.DBusObject._getProperty', {'self': Ref(O), 'interfaceName': STR, 'propertyName': STR}, fn=_getProperty,
              result=Opt(Ref(DP)), ensures=gp_post, assumed=True)
     contract(w, 'iface.DBusObject._iterIFaceCaches', {'self': Ref(O)}, fn=_iterIFaceCaches, result=ListT(OPAQUE), assumed=True)
-    contract(w, 'iface.DBusObject.emitSignal', {'self': Ref(O), 'signalName': STR, 'args': TupleT(STR, DictT(STR, OPAQUE), ListT(OPAQUE))}, fn=emitSignal,
-             modifies=lambda cx: [(cx.args['self'], O + '.' + f) for f in ('g_emitted', 'g_sig_name', 'g_sig_iface', 'g_sig_key', 'g_sig_val', 'g_sig_inval')],
+    contract(w, 'iface.DBusObject.emitSignal', {'self': Ref(O), 'signalName': STR, 'args': TupleT(STR, DictT(STR, OPAQUE), ListT(OPAQUE)), 'interface': STR}, fn=emitSignal,
+             modifies=lambda cx: [(cx.args['self'], O + '.' + f) for f in ('g_emitted', 'g_sig_name', 'g_sig_iface', 'g_sig_key', 'g_sig_val', 'g_sig_inval', 'g_sig_on')],
              ensures=lambda cx: [('emitted', z3.And(cx.new(cx.args['self']).g_emitted == cx.old(cx.args['self']).g_emitted + 1,
                                                    cx.new(cx.args['self']).g_sig_name == cx.a('signalName'),
+                                                   # the interface the signal goes out on: the one named by the keyword ('' = the first that declares such a signal)
+                                                   cx.new(cx.args['self']).g_sig_on == cx.a('interface'),
                                                    cx.new(cx.args['self']).g_sig_iface == cx.args['args'].items[0].term,
                                                    cx.new(cx.args['self']).g_sig_inval == z3.Length(cx.args['args'].items[2].seqs[0]),
                                                    z3.Select(cx.args['args'].items[1].dom, cx.new(cx.args['self']).g_sig_key),
@@ -165,13 +167,13 @@ def build_world():
                                                                  z3.Implies(z3.And(had, z3.Select(o._dbusProperties.dom, k2)),
                                                                             z3.Select(n._dbusProperties.vals[0], k2) == z3.Select(o._dbusProperties.vals[0], k2)))))(*other_slot(cx, pv))),
                 ('exactly one PropertiesChanged naming interface, property and the value typed by the declaration - iff the declaration emits changes',
-                 z3.If(emits, z3.And(n.g_emitted == o.g_emitted + 1, n.g_sig_name == sv('PropertiesChanged'), n.g_sig_key == pv.pname, n.g_sig_inval == 0, n.g_sig_iface == pv.interface.val.term,
+                 z3.If(emits, z3.And(n.g_emitted == o.g_emitted + 1, n.g_sig_name == sv('PropertiesChanged'), n.g_sig_on == sv('org.freedesktop.DBus.Properties'), n.g_sig_key == pv.pname, n.g_sig_inval == 0, n.g_sig_iface == pv.interface.val.term,
                                      n.g_sig_val == z3.If(basic, typed(ipv.sig, val), val)),
                        n.g_emitted == o.g_emitted))]
 
     contract(w, 'txdbus.objects.DBusProperty.__set__', {'self': Ref(DP), 'instance': Ref(O), 'value': OPAQUE},
              requires=desc_pre, ensures=set_post,
-             modifies=lambda cx: [(cx.args['instance'], O + '.' + f) for f in ('_dbusProperties', '_dbusProperties?set', 'g_emitted', 'g_sig_name', 'g_sig_iface', 'g_sig_key', 'g_sig_val', 'g_sig_inval')]
+             modifies=lambda cx: [(cx.args['instance'], O + '.' + f) for f in ('_dbusProperties', '_dbusProperties?set', 'g_emitted', 'g_sig_name', 'g_sig_iface', 'g_sig_key', 'g_sig_val', 'g_sig_inval', 'g_sig_on')]
              + [(cx.args['self'], DP + '.key')],
              locals_types={})
 
@@ -246,7 +248,7 @@ def build_world():
         ipv = cx.old(VRef(cx.old(pr).iprop.val.term, IP))
         return z3.Not(z3.Or(ipv.access == sv('write'), ipv.access == sv('readwrite')))
 
-    smods = lambda cx: [(cx.args['self'], O + '.' + f) for f in ('_dbusProperties', '_dbusProperties?set', 'g_emitted', 'g_sig_name', 'g_sig_iface', 'g_sig_key', 'g_sig_val', 'g_sig_inval')] + [('*', DP + '.key')]
+    smods = lambda cx: [(cx.args['self'], O + '.' + f) for f in ('_dbusProperties', '_dbusProperties?set', 'g_emitted', 'g_sig_name', 'g_sig_iface', 'g_sig_key', 'g_sig_val', 'g_sig_inval', 'g_sig_on')] + [('*', DP + '.key')]
     contract(w, 'txdbus.objects.DBusObject._dbus_PropertySet', {'self': Ref(O), 'interfaceName': STR, 'propertyName': STR, 'value': OPAQUE},
              ensures=pset_post, raises={Exception: pset_raises},
              raises_post={Exception: lambda cx: [('a refused Set changes nothing', cx.unchanged(O + '._dbusProperties', O + '.g_emitted'))]},
